@@ -24,6 +24,9 @@ Template directives (line based, inside an otherwise ordinary Verus file):
     //@ replace <from> => <to>   literal replacement inside the copied text (logged as manual rewrite; must match once);
     //                           `ws:<from>` matches with any white space between the blank-separated tokens of <from>
     //@ rename-generic <A> <B>   R11
+    //@ tail-after <anchor> [#n] R17: following lines are a function header; the item's attributes, signature and every statement up
+    //                           to and including the n-th direct body statement starting with anchor are dropped, the rest of the body
+    //                           is checked as the body of that header (the dropped statements are counted in the report)
     //@ end
 """
 import json, os, re, subprocess, sys
@@ -108,6 +111,7 @@ class Edits:
     def __init__(self, src, start, end, relfile):
         self.src, self.start, self.end, self.relfile = src, start, end, relfile
         self.eds = []  # (s, e, text, prio)
+        self.lo, self.head = None, ""  # R17: keep only the text from byte `lo` on; `head` replaces what comes before
 
     def replace(self, s, e, text):
         self.eds.append((s, e, text, 0))
@@ -120,6 +124,9 @@ class Edits:
         eds = sorted(self.eds, key=lambda t: (t[0], 0 if t[0] == t[1] else 1, t[3]))
         # check for overlaps among replacements
         pieces, pos = [], self.start
+        if self.lo is not None:
+            eds = [t for t in eds if t[0] >= self.lo]
+            pieces, pos = [(self.head, ("contract",))], self.lo
         for s, e, text, _ in eds:
             if s < pos:
                 if s == e and s >= self.start:
@@ -156,6 +163,7 @@ class Directive:
         self.rename_generic = []
         self.drop_body = False
         self.exec_const = None
+        self.tail_after = None  # (anchor, nth, header text)
 
 
 def select_variant(text, variant):
@@ -219,6 +227,8 @@ def parse_template(text, unit_path):
                     d.closures[cur[1]] = (cur[2], cur[3], t)
                 elif k in ("before", "after", "at-start", "at-end", "loop-start", "loop-end"):
                     d.splices.append((k, cur[1], cur[2], t, cur[3]))
+                elif k == "tail-after":
+                    d.tail_after = (cur[1], cur[2], t)
                 cur, payload = None, []
 
             while i < len(lines):
@@ -250,6 +260,9 @@ def parse_template(text, unit_path):
                             raise SpliceError("%s:%d: bad closure directive" % (unit_path, i + 1))
                         tys = [x.strip() for x in split_top_commas(m2.group(2))] if m2.group(2).strip() else []
                         cur = ("closure", int(m2.group(1)), tys, m2.group(3))
+                    elif key == "tail-after":
+                        m2 = re.match(r"(.*?)(?:\s+#(\d+))?$", rest)
+                        cur = ("tail-after", norm(m2.group(1)), int(m2.group(2) or 0))
                     elif key in ("before", "after"):
                         m2 = re.match(r"(.*?)(?:\s+#(\d+))?$", rest)
                         cur = (key, norm(m2.group(1)), int(m2.group(2) or 0), i + 1)
@@ -365,6 +378,22 @@ def render_fn(doc, it, parent, d, relfile, report, twin=False):
         if d.contract:
             ed.insert(it["semi"], "\n" + contract + "\n")
         return ed.render()
+    if d.tail_after:
+        # R17: the tail of a function as a function of its own.  Everything up to and including the anchor statement (a direct
+        # statement of the body) is dropped and replaced by the header given in the template; the rest is the repository text.
+        anchor, nth, header = d.tail_after
+        top = [st for st in body["stmts"] if st["block_open"] == body["open"]]
+        cands = [st for st in top if st["norm"].startswith(anchor)]
+        if len(cands) <= nth:
+            report["lost_anchors"].append("%s: tail-after `%s` #%d" % (it["path"], anchor, nth))
+        else:
+            ed.lo = cands[nth]["span"][1]
+            ed.head = header + "\n" + contract + "\n{"
+            rw["R17"] = rw.get("R17", 0) + 1
+            rw["R17-dropped-stmts"] = len([st for st in top if st["span"][1] <= ed.lo])
+            if contract.strip():
+                rw["R1"] = rw.get("R1", 0) + 1
+            contract = ""
     if contract.strip():
         ed.insert(body["open"], "\n" + contract + "\n    ", -1)
         rw["R1"] = rw.get("R1", 0) + 1
@@ -387,7 +416,7 @@ def render_fn(doc, it, parent, d, relfile, report, twin=False):
     elif twin:
         # vacuity twin: `assert(false)` at the start of the body must FAIL; if it verifies, the precondition is contradictory.
         # (the check is local to the function: callers only see the contract, which is unchanged)
-        ed.insert(body["open"] + 1, " proof { assert(false); } ", 9)
+        ed.insert(ed.lo if ed.lo is not None else body["open"] + 1, " proof { assert(false); } ", 9)
     # loops
     for k, text in d.loops.items():
         if k >= len(body["loops"]):
@@ -490,7 +519,7 @@ def render_fn(doc, it, parent, d, relfile, report, twin=False):
     # ghost splices R10
     for kind, anchor, nth, text, tline in d.splices:
         if kind == "at-start":
-            ed.insert(body["open"] + 1, "\n" + text + "\n", 5)
+            ed.insert(ed.lo if ed.lo is not None else body["open"] + 1, "\n" + text + "\n", 5)
             rw["R10"] = rw.get("R10", 0) + 1
             continue
         if kind == "at-end":
